@@ -9,25 +9,66 @@ pub struct AtomicU64 { _p: () }
 impl AtomicU64 {
     #[verifier::external_body]
     pub fn load(&self, o: Ordering) -> u64 { unimplemented!() }
+    #[verifier::external_body]
+    pub fn store(&self, v: u64, o: Ordering) { unimplemented!() }
 }
 #[verifier::external_body]
 pub struct AtomicU32 { _p: () }
 impl AtomicU32 {
     #[verifier::external_body]
     pub fn store(&self, v: u32, o: Ordering) { unimplemented!() }
+    #[verifier::external_body]
+    pub fn fetch_add(&self, v: u32, o: Ordering) -> u32 { unimplemented!() }
+    #[verifier::external_body]
+    pub fn fetch_sub(&self, v: u32, o: Ordering) -> u32 { unimplemented!() }
+}
+#[verifier::external_body]
+pub struct AtomicUsize { _p: () }
+impl AtomicUsize {
+    #[verifier::external_body]
+    pub fn fetch_add(&self, v: usize, o: Ordering) -> usize { unimplemented!() }
+    #[verifier::external_body]
+    pub fn fetch_sub(&self, v: usize, o: Ordering) -> usize { unimplemented!() }
+}
+// a record's absolute expiry (0 = none); stable within one call (A3)
+#[verifier::external_body]
+pub struct ExpiryCell { _p: () }
+impl ExpiryCell {
+    pub uninterp spec fn val(&self) -> u64;
+    #[verifier::external_body]
+    pub fn load(&self, o: Ordering) -> (v: u64)
+        ensures v == self.val(),
+    {
+        unimplemented!()
+    }
 }
 
 #[verifier::external_body]
 pub struct Bytes { _p: () }
 impl Bytes {
     pub uninterp spec fn view(&self) -> Seq<u8>;
+    #[verifier::external_body]
+    pub fn len(&self) -> (n: usize)
+        ensures n == self.view().len(),
+    {
+        unimplemented!()
+    }
+    // a Bytes clone is another handle on the same bytes
+    #[verifier::external_body]
+    pub fn clone(&self) -> (b: Bytes)
+        ensures b.view() == self.view(),
+    {
+        unimplemented!()
+    }
 }
 
 pub struct Record {
     pub key: Vec<u8>,
+    pub value_len: usize,
     pub timestamp: u64,
     pub refcount: AtomicU32,
-    pub ttl_expiry: AtomicU64,
+    pub ttl_expiry: ExpiryCell,
+    pub retired_at: AtomicU64,
 }
 
 // bytes accounted for a record: fixed overhead + key + value (operations.rs calculate_record_size and
@@ -95,6 +136,14 @@ pub mod scc {
 
 #[verifier::external_body]
 pub struct VacantEntry { _p: () }
+impl VacantEntry {
+    #[verifier::external_body]
+    pub fn insert_entry(self, record: Arc<Record>) -> (e: OccupiedEntry)
+        ensures e.current() == record,
+    {
+        unimplemented!()
+    }
+}
 
 #[verifier::external_body]
 pub struct OccupiedEntry { _p: () }
@@ -104,6 +153,13 @@ impl OccupiedEntry {
     #[verifier::external_body]
     pub fn get(&self) -> (r: &Arc<Record>)
         ensures *r == self.current(),
+    {
+        unimplemented!()
+    }
+
+    #[verifier::external_body]
+    pub fn remove(self) -> (r: (Vec<u8>, Arc<Record>))
+        ensures r.1 == self.current(),
     {
         unimplemented!()
     }
@@ -121,6 +177,57 @@ pub struct HashIndex { _p: () }
 impl HashIndex {
     #[verifier::external_body]
     pub fn entry(&self, key: Vec<u8>) -> scc::hash_map::Entry { unimplemented!() }
+    // self.hash_table.read(key, |_, v| v.clone())   (rule R-hread)
+    #[verifier::external_body]
+    pub fn read_arc(&self, key: &[u8]) -> (r: Option<Arc<Record>>)
+        ensures r matches Some(a) ==> a.key@.len() <= 0x10_0000,
+    {
+        unimplemented!()
+    }
+}
+
+#[verifier::external_body]
+pub struct TreeH { _p: () }
+impl TreeH {
+    #[verifier::external_body]
+    pub fn remove(&self, key: &[u8]) { unimplemented!() }
+}
+
+#[verifier::external_body]
+pub struct VersionClock { _p: () }
+impl VersionClock {
+    #[verifier::external_body]
+    pub fn observe(&self, key: &[u8], timestamp: u64) { unimplemented!() }
+}
+
+pub struct Statistics {
+    pub record_count: AtomicU32,
+    pub memory_usage: AtomicUsize,
+    pub keys_with_ttl: AtomicUsize,
+}
+impl Statistics {
+    #[verifier::external_body]
+    pub fn record_insert(&self, latency_ns: u64, is_update: bool) { unimplemented!() }
+    #[verifier::external_body]
+    pub fn record_delete(&self, latency_ns: u64) { unimplemented!() }
+}
+
+pub enum Operation { Insert, Update, Delete, Get, PartialUpdate }
+
+#[verifier::external_body]
+pub struct InstantH { _p: () }
+#[verifier::external_body]
+pub fn instant_now() -> InstantH { unimplemented!() }
+#[verifier::external_body]
+pub fn elapsed_nanos(start: &InstantH) -> u64 { unimplemented!() }
+
+// Arc::ptr_eq(a, b)   (rule R-ptreq)
+pub uninterp spec fn same_arc(a: &Arc<Record>, b: &Arc<Record>) -> bool;
+#[verifier::external_body]
+pub fn arc_ptr_eq(a: &Arc<Record>, b: &Arc<Record>) -> (r: bool)
+    ensures r == same_arc(a, b),
+{
+    unimplemented!()
 }
 
 // ---- memory reservation (Kani unit memory_reservation: reserve_memory_contract, release_memory_contract)
@@ -136,17 +243,22 @@ impl MemoryReservation {
 pub struct CacheH { _p: () }
 impl CacheH {
     #[verifier::external_body]
-    pub fn remove_for_record(&self, key: &Vec<u8>, record: &Arc<Record>) { unimplemented!() }
+    pub fn remove_for_record(&self, key: &[u8], record: &Arc<Record>) { unimplemented!() }
 }
 #[verifier::external_body]
 pub struct WriteBufferH { _p: () }
 impl WriteBufferH {
     #[verifier::external_body]
     pub fn add_replacement(&self, record: Arc<Record>, replaced: Arc<Record>) -> Result<()> { unimplemented!() }
+    #[verifier::external_body]
+    pub fn add_write(&self, op: Operation, record: Arc<Record>, old_value_len: usize) -> Result<()> { unimplemented!() }
 }
 
 pub struct FeoxStore {
     pub hash_table: HashIndex,
+    pub tree: TreeH,
+    pub stats: Statistics,
+    pub version_clock: VersionClock,
     pub enable_ttl: bool,
     pub memory_only: bool,
     pub enable_caching: bool,
@@ -171,10 +283,32 @@ impl FeoxStore {
     }
     #[verifier::external_body]
     pub fn release_memory(&self, amount: usize) { unimplemented!() }
+    // operations.rs validate_key / validate_key_value / validate_new_key: length limits (MAX_KEY_SIZE, MAX_VALUE_SIZE)
     #[verifier::external_body]
-    pub fn publish_to_tree(&self, key: &Vec<u8>, record: Arc<Record>) { unimplemented!() }
+    pub fn validate_key(&self, key: &[u8]) -> (r: Result<()>)
+        ensures r is Ok ==> 1 <= key@.len() <= 0x10_0000,
+    {
+        unimplemented!()
+    }
     #[verifier::external_body]
-    pub fn observe_published_timestamp(&self, key: &Vec<u8>, timestamp: u64, explicit: bool) { unimplemented!() }
+    pub fn validate_key_value(&self, key: &[u8], value: &[u8]) -> (r: Result<()>)
+        ensures r is Ok ==> 1 <= key@.len() <= 0x10_0000 && 1 <= value@.len() <= 0x1000_0000,
+    {
+        unimplemented!()
+    }
+    // explicit timestamps verbatim, otherwise the version clock (Kani unit version_clock)
+    #[verifier::external_body]
+    pub fn resolve_timestamp(&self, key: &[u8], timestamp: Option<u64>) -> (u64, bool) { unimplemented!() }
+    #[verifier::external_body]
+    pub fn remove_cached(&self, key: &[u8], record: &Arc<Record>) { unimplemented!() }
+    #[verifier::external_body]
+    pub fn note_expired_record(&self, record_size: usize) { unimplemented!() }
+    #[verifier::external_body]
+    pub fn insert_into_tree(&self, key: Vec<u8>, record: Arc<Record>) { unimplemented!() }
+    #[verifier::external_body]
+    pub fn publish_to_tree(&self, key: &[u8], record: Arc<Record>) { unimplemented!() }
+    #[verifier::external_body]
+    pub fn observe_published_timestamp(&self, key: &[u8], timestamp: u64, explicit: bool) { unimplemented!() }
     #[verifier::external_body]
     pub fn note_ttl_transition(&self, previous: u64, current: u64) { unimplemented!() }
 }
